@@ -59,9 +59,77 @@ pub struct Scn {
     pub initial_threshold: u32,
     /// check everything after every op (short histories) or only at ReadAll/Collect
     pub dense_checks: bool,
+    /// execute in a child process: the child's death (signal, abort, sanitizer report) is the
+    /// observation. Used for histories that drop the heap while handles and guards survive.
+    #[serde(default)]
+    pub isolated: bool,
 }
 
-pub struct C13;
+pub struct C13 {
+    /// generate histories that drop the heap with survivors (run in worker processes only)
+    pub heap_drop_stratum: bool,
+}
+
+pub const C13: C13 = C13 { heap_drop_stratum: false };
+pub const C13_MEM: C13 = C13 { heap_drop_stratum: true };
+
+/// Run one scenario in a child process of this binary; a dead child is a failure.
+pub fn run_isolated(scn: &Scn) -> RunReport {
+    use std::io::Write;
+    let mut rep = RunReport::default();
+    let exe = std::env::var("TSIM_MEM_EXE").ok().map(std::path::PathBuf::from).or_else(|| std::env::current_exe().ok()).unwrap_or_default();
+    let mut inner = scn.clone();
+    inner.isolated = false;
+    let json = serde_json::to_string(&inner).unwrap_or_default();
+    let child = std::process::Command::new(&exe)
+        .arg("c13-exec-one")
+        .stdin(std::process::Stdio::piped())
+        .stdout(std::process::Stdio::piped())
+        .stderr(std::process::Stdio::piped())
+        .spawn();
+    let Ok(mut child) = child else {
+        rep.fail(Failure::new("harness_cannot_spawn_worker", "spawn failed", json!({})));
+        return rep;
+    };
+    if let Some(mut si) = child.stdin.take() {
+        let _ = si.write_all(json.as_bytes());
+    }
+    let out = child.wait_with_output();
+    match out {
+        Ok(o) => {
+            let stdout = String::from_utf8_lossy(&o.stdout).to_string();
+            let stderr = String::from_utf8_lossy(&o.stderr).to_string();
+            if o.status.success() {
+                // child prints "OK <hash> <nontrivial>" or "FAIL <clause> <observed>"
+                if let Some(l) = stdout.lines().find(|l| l.starts_with("FAIL ")) {
+                    let mut it = l.splitn(3, ' ');
+                    let _ = it.next();
+                    let clause = it.next().unwrap_or("?");
+                    let obs = it.next().unwrap_or("");
+                    rep.fail(Failure::new(clause, obs, json!({"isolated": true})));
+                } else if let Some(l) = stdout.lines().find(|l| l.starts_with("OK ")) {
+                    let mut it = l.split(' ');
+                    let _ = it.next();
+                    rep.trace_hash = it.next().and_then(|h| u64::from_str_radix(h, 16).ok()).unwrap_or(0);
+                    rep.nontrivial = it.next() == Some("1");
+                }
+            } else {
+                use std::os::unix::process::ExitStatusExt;
+                let how = match (o.status.code(), o.status.signal()) {
+                    (_, Some(sig)) => format!("killed by signal {}", sig),
+                    (Some(c), _) => format!("exit code {}", c),
+                    _ => "died".to_string(),
+                };
+                let asan = stderr.contains("AddressSanitizer");
+                let clause = if asan { "memory_error_reported_by_sanitizer" } else { "worker_process_died" };
+                let first: String = stderr.lines().filter(|l| l.contains("ERROR") || l.contains("SUMMARY") || l.contains("panicked") || l.contains("free") || l.contains("corrupt")).take(3).collect::<Vec<_>>().join(" | ");
+                rep.fail(Failure::new(clause, how.clone(), json!({"how": how, "stderr_excerpt": first.chars().take(600).collect::<String>()})));
+            }
+        }
+        Err(e) => rep.fail(Failure::new("harness_cannot_wait_worker", e.to_string(), json!({}))),
+    }
+    rep
+}
 
 struct MNode {
     payload: u64,
@@ -293,7 +361,7 @@ impl Check for C13 {
         };
         // swarm: per-run weights
         let heavy_alloc = long || rng.chance(0.3);
-        let with_heap_drop = !long && rng.chance(0.25);
+        let with_heap_drop = self.heap_drop_stratum;
         let stale_ops = rng.chance(0.6);
         let mut w = vec![
             6,                                 // CreateGuard
@@ -358,6 +426,7 @@ impl Check for C13 {
             ops,
             initial_threshold: *rng.pick(&thresholds),
             dense_checks: !long,
+            isolated: false,
         }
     }
 
@@ -390,6 +459,9 @@ impl Check for C13 {
     }
 
     fn execute(&self, scn: &Scn) -> RunReport {
+        if scn.isolated {
+            return run_isolated(scn);
+        }
         tsrun::verif::reset();
         let heap: Heap<Node> = Heap::new();
         heap.set_gc_threshold(scn.initial_threshold as usize);
@@ -733,4 +805,158 @@ impl Sim {
     fn dense_or(&self, scn: &Scn) -> bool {
         scn.dense_checks
     }
+}
+
+
+// ───────────────────────────── memory stratum (worker processes) ─────────────────────────────
+
+fn mem_scenario(seed: u64, i: usize) -> Scn {
+    let sid = crate::rng::stream_id("C13/mem");
+    let mut r = Rng::new(crate::rng::derive(seed, sid, i as u64));
+    // only short histories here (long ones never drop the heap)
+    let idx = if i % 500 == 499 { i + 1 } else { i };
+    C13_MEM.generate(&mut r, idx, Tier::Quick)
+}
+
+/// Worker: executes scenarios [from, to) in this process; prints "S <i>" before and
+/// "R <i> <hash> <nontrivial> <clause|-> <drops>" after each, so the parent knows the culprit if it dies.
+pub fn memory_worker(seed: u64, from: usize, to: usize) {
+    use std::io::Write;
+    let out = std::io::stdout();
+    for i in from..to {
+        let scn = mem_scenario(seed, i);
+        {
+            let mut o = out.lock();
+            let _ = writeln!(o, "S {}", i);
+            let _ = o.flush();
+        }
+        let rep = C13_MEM.execute(&scn);
+        let drops = rep.counters.get("heap_dropped_with_survivors").copied().unwrap_or(0);
+        let stale = rep.counters.get("stale_handle_cloned").copied().unwrap_or(0) + rep.counters.get("stale_handle_dropped").copied().unwrap_or(0);
+        let mut o = out.lock();
+        let _ = writeln!(
+            o,
+            "R {} {:x} {} {} {} {}",
+            i,
+            rep.trace_hash,
+            rep.nontrivial as u8,
+            rep.failure.as_ref().map(|f| f.clause.clone()).unwrap_or_else(|| "-".into()),
+            drops,
+            stale
+        );
+        let _ = o.flush();
+    }
+}
+
+/// Parent: run `n` heap-drop histories over `threads` worker processes (natively and, when an
+/// ASan build of tsim exists, under AddressSanitizer). Returns failures with replayable scenarios.
+pub fn memory_stratum(
+    seed: u64,
+    n: usize,
+    threads: usize,
+    cov: &mut std::collections::BTreeMap<String, Value>,
+    assume: &mut Vec<String>,
+) -> Vec<(Failure, Value)> {
+    let mut fails: Vec<(Failure, Value)> = Vec::new();
+    let exe = std::env::current_exe().unwrap_or_default();
+    let asan_exe = exe
+        .parent()
+        .and_then(|p| p.parent())
+        .and_then(|p| p.parent())
+        .map(|p| p.join("target-asan/x86_64-unknown-linux-gnu/release/tsim"));
+    let mut variants: Vec<(&str, std::path::PathBuf, usize)> = vec![("native", exe.clone(), n)];
+    if let Some(a) = asan_exe
+        && a.exists()
+    {
+        variants.push(("asan", a, n / 2));
+    } else {
+        assume.push("no AddressSanitizer build of tsim found: the memory stratum ran natively only (a dead worker is still a violation)".into());
+    }
+    for (name, bin, count) in variants {
+        let w = threads.max(1);
+        let per = count.div_ceil(w);
+        let mut children = Vec::new();
+        for k in 0..w {
+            let from = k * per;
+            let to = ((k + 1) * per).min(count);
+            if from >= to {
+                break;
+            }
+            let c = std::process::Command::new(&bin)
+                .args(["c13-worker", &seed.to_string(), &from.to_string(), &to.to_string()])
+                .env("ASAN_OPTIONS", "detect_leaks=0:abort_on_error=0:exitcode=99")
+                .stdout(std::process::Stdio::piped())
+                .stderr(std::process::Stdio::piped())
+                .spawn();
+            if let Ok(c) = c {
+                children.push((from, to, c));
+            }
+        }
+        let mut done = 0u64;
+        let mut drops = 0u64;
+        let mut stale = 0u64;
+        let mut distinct: std::collections::HashSet<String> = Default::default();
+        for (from, to, c) in children {
+            let Ok(o) = c.wait_with_output() else { continue };
+            let stdout = String::from_utf8_lossy(&o.stdout).to_string();
+            let mut last_started: Option<usize> = None;
+            let mut last_done: Option<usize> = None;
+            for l in stdout.lines() {
+                let p: Vec<&str> = l.split(' ').collect();
+                if p.first() == Some(&"S") {
+                    last_started = p.get(1).and_then(|x| x.parse().ok());
+                } else if p.first() == Some(&"R") {
+                    last_done = p.get(1).and_then(|x| x.parse().ok());
+                    done += 1;
+                    if p.get(3) == Some(&"1") {
+                        distinct.insert(p.get(2).unwrap_or(&"").to_string());
+                    }
+                    drops += p.get(5).and_then(|x| x.parse::<u64>().ok()).unwrap_or(0);
+                    stale += p.get(6).and_then(|x| x.parse::<u64>().ok()).unwrap_or(0);
+                    if let Some(cl) = p.get(4)
+                        && *cl != "-"
+                        && fails.len() < 3
+                        && let Some(i) = last_done
+                    {
+                        let mut scn = mem_scenario(seed, i);
+                        scn.isolated = true;
+                        fails.push((
+                            Failure::new(cl, format!("memory stratum ({}) scenario {}", name, i), json!({"variant": name, "index": i})),
+                            serde_json::to_value(&scn).unwrap_or_default(),
+                        ));
+                    }
+                }
+            }
+            if !o.status.success() && fails.len() < 3 {
+                // the worker died: the culprit is the scenario it had started but not finished
+                let culprit = match (last_started, last_done) {
+                    (Some(s), Some(d)) if s != d => Some(s),
+                    (Some(s), None) => Some(s),
+                    _ => None,
+                };
+                let stderr = String::from_utf8_lossy(&o.stderr).to_string();
+                let asan = stderr.contains("AddressSanitizer");
+                let clause = if asan { "memory_error_reported_by_sanitizer" } else { "worker_process_died" };
+                if let Some(i) = culprit {
+                    let mut scn = mem_scenario(seed, i);
+                    scn.isolated = true;
+                    fails.push((
+                        Failure::new(clause, format!("{} worker [{}..{}) died at scenario {}", name, from, to, i),
+                            json!({"variant": name, "index": i, "stderr_excerpt": stderr.lines().filter(|l| l.contains("ERROR") || l.contains("SUMMARY")).take(3).collect::<Vec<_>>().join(" | ")})),
+                        serde_json::to_value(&scn).unwrap_or_default(),
+                    ));
+                } else {
+                    fails.push((
+                        Failure::new("worker_process_died", format!("{} worker [{}..{}) died outside a scenario", name, from, to), json!({})),
+                        json!({"ops": [], "initial_threshold": 0, "dense_checks": true, "isolated": true}),
+                    ));
+                }
+            }
+        }
+        cov.insert(
+            format!("memory_stratum_{}", name),
+            json!({"histories": done, "distinct_nontrivial": distinct.len(), "heap_drops_with_survivors": drops, "stale_handle_clone_or_drop_ops": stale, "worker_processes": w}),
+        );
+    }
+    fails
 }
